@@ -4,7 +4,11 @@ package quic
 
 import (
 	"errors"
+	"math/rand/v2"
 	"strings"
+
+	"github.com/refraction-networking/uquic/internal/ackhandler"
+	"github.com/refraction-networking/uquic/internal/utils"
 
 	"github.com/refraction-networking/uquic/internal/handshake"
 	"github.com/refraction-networking/uquic/internal/monotime"
@@ -223,4 +227,73 @@ func VerifProtUnpackShort(o handshake.ShortHeaderOpener, connIDLen int, rcvTime 
 		k = 1
 	}
 	return VerifProtUnpacked{FirstByte: data[0], PN: int64(pn), PNLen: int(pnLen), KP: k, Payload: verifProtCopy(dec)}, VerifProtOK
+}
+
+// ---- the packer's call sites: appendShortHeaderPacket / getLongHeader + appendLongHeaderPacket ----
+
+// VerifProtPacked is what the real packer produced.
+type VerifProtPacked struct {
+	PN     int64
+	PNLen  int
+	Packet []byte
+	Ack    []byte // serialized ACK frame (nil if none)
+	Frames []byte // the other frames, serialized
+	Log    VerifProtLog
+}
+
+// VerifProtNewSPH: a real sentPacketHandler whose packet number spaces start at initialPN.
+func VerifProtNewSPH(initialPN int64, pers protocol.Perspective) ackhandler.SentPacketHandler {
+	return ackhandler.NewSentPacketHandler(protocol.PacketNumber(initialPN), 1200, utils.NewRTTStats(), &utils.ConnectionStats{},
+		true, false, func(protocol.PacketNumber) {}, pers, nil, utils.DefaultLogger)
+}
+
+func verifProtPayload(ack *wire.AckFrame, nPing int, v protocol.Version) (payload, []byte, []byte) {
+	var pl payload
+	var ackBytes, frameBytes []byte
+	if ack != nil {
+		pl.ack = ack
+		pl.length += ack.Length(v)
+		ackBytes, _ = ack.Append(nil, v)
+	}
+	for i := 0; i < nPing; i++ {
+		f := &wire.PingFrame{}
+		pl.frames = append(pl.frames, ackhandler.Frame{Frame: f})
+		pl.length += f.Length(v)
+		frameBytes, _ = f.Append(frameBytes, v)
+	}
+	return pl, ackBytes, frameBytes
+}
+
+// VerifProtPackShort: packet number and length from the real sentPacketHandler, packet built by
+// the real packetPacker.appendShortHeaderPacket.
+func VerifProtPackShort(sph ackhandler.SentPacketHandler, s handshake.LongHeaderSealer, connID protocol.ConnectionID, kp protocol.KeyPhaseBit,
+	ack *wire.AckFrame, nPing int, padding int, v protocol.Version) (res VerifProtPacked, err error) {
+	p := &packetPacker{pnManager: sph, rand: *rand.New(rand.NewPCG(1, 2))}
+	pn, pnLen := sph.PeekPacketNumber(protocol.Encryption1RTT)
+	pl, ackBytes, frameBytes := verifProtPayload(ack, nPing, v)
+	buf := getPacketBuffer()
+	defer buf.Release()
+	_, err = p.appendShortHeaderPacket(buf, connID, pn, pnLen, kp, pl, protocol.ByteCount(padding), 1452, &verifProtSealer{s: s, log: &res.Log}, false, v)
+	if err != nil {
+		return res, err
+	}
+	res.PN, res.PNLen, res.Packet, res.Ack, res.Frames = int64(pn), int(pnLen), verifProtCopy(buf.Data), ackBytes, frameBytes
+	return res, nil
+}
+
+// VerifProtPackLong: header from the real packetPacker.getLongHeader (packet number and length
+// from the real sentPacketHandler), packet built by the real appendLongHeaderPacket.
+func VerifProtPackLong(sph ackhandler.SentPacketHandler, s handshake.LongHeaderSealer, encLevel protocol.EncryptionLevel,
+	dest, src protocol.ConnectionID, token []byte, ack *wire.AckFrame, nPing int, padding int, v protocol.Version) (res VerifProtPacked, err error) {
+	p := &packetPacker{pnManager: sph, rand: *rand.New(rand.NewPCG(1, 2)), srcConnID: src, getDestConnID: func() protocol.ConnectionID { return dest }, token: token}
+	hdr := p.getLongHeader(encLevel, v)
+	pl, ackBytes, frameBytes := verifProtPayload(ack, nPing, v)
+	buf := getPacketBuffer()
+	defer buf.Release()
+	_, err = p.appendLongHeaderPacket(buf, hdr, pl, protocol.ByteCount(padding), encLevel, &verifProtSealer{s: s, log: &res.Log}, v)
+	if err != nil {
+		return res, err
+	}
+	res.PN, res.PNLen, res.Packet, res.Ack, res.Frames = int64(hdr.PacketNumber), int(hdr.PacketNumberLen), verifProtCopy(buf.Data), ackBytes, frameBytes
+	return res, nil
 }
